@@ -27,17 +27,26 @@ def Row.nToS (r : Row) : Row := match r.kind with
   | .N => { r with kind := .S }
   | _ => r
 
+/-- kind of a row at a non-external node: dispatch becomes internal; special kinds ('size') stay
+    (`op.mapping.loc[In & type.isin(['d','i']), 'type'] = 'i'`) -/
+def innerKind : VarKind → VarKind
+  | .d => .i
+  | .i => .i
+  | .other s => .other s
+
 /-- what happens to one mapping row -/
 def structuredMapRow (name : String) (ext : List String) (m : MapRow) : MapRow :=
   let m := if m.varName == "nan" then m else { m with varName := m.varName ++ "__" ++ m.asset }
   match m.node with
   | some nd => if ext.contains nd then { m with asset := name }
-               else { m with asset := name, node := some (name ++ "_internal_" ++ nd), kind := .i }
+               else { m with asset := name, node := some (name ++ "_internal_" ++ nd),
+                             kind := innerKind m.kind }
   | none => { m with asset := name }
 
 /-- the problem a structured asset hands to the outer portfolio: inner portfolio assembled with the
     external nodes skipped; nodal rows turned into equalities; all variables re-assigned to the wrapper;
-    non-external nodes renamed `<name>_internal_<node>` and their rows typed internal ('i') -/
+    non-external nodes renamed `<name>_internal_<node>` and their dispatch rows typed internal ('i');
+    rows of any other kind (the 'size' of a scaled asset) keep their kind -/
 def structured (name : String) (ext : List String) (inner : List AssetProblem) (gridI : List Nat) :
     AssetProblem :=
   let P := assemble inner gridI ext
